@@ -474,6 +474,14 @@ func (r *runner) par(op Op) error {
 	if err := r.addCurrent(); err != nil {
 		return err
 	}
+	// The global flag takes effect at once, also on rule sets whose
+	// replacement could not be applied (a list file is unreadable): every
+	// candidate rule set may be in force with the flag as it is now.
+	for _, c := range append([]*cand(nil), r.st.cands...) {
+		if err := r.st.addCand(conf{lists: c.lists, filtering: r.st.filtering}); err != nil {
+			return err
+		}
+	}
 	exch := r.up.Since(upStart)
 	used := make([]bool, len(exch))
 	for _, f := range fl {
